@@ -285,3 +285,175 @@ def seq_closure(rep, tier, unit='segments:Seq'):
                 bad.append({'flags': fl, 'display': disp, 'items': items})
     rep.add(unit, f'closure: {checked} sequences of arity 5, 6, 8: segments are proved shapes, item variables are distinct and listed in order by the final display',
             'case_complete', not bad, detail={'unmatched': bad[:3]})
+
+
+# ------------------------------------------------------------------------------------------------ Longest
+def split_longest(src):
+    tree = ast.parse(src)
+    body = tree.body
+    marks = [i for i, s in enumerate(body) if _is_option_start(s)]
+    # option i > 0 starts at the `_pos = backtrackN` right before its attempt
+    starts = []
+    for n, i in enumerate(marks):
+        if n > 0 and i > 0 and re.fullmatch(r'_pos = backtrack\d+', ast.unparse(body[i - 1])):
+            starts.append(i - 1)
+        else:
+            starts.append(i)
+    tail_ix = max(i for i, s in enumerate(body) if isinstance(s, ast.If) and ast.unparse(s.test).startswith('has_result'))
+    head = body[:starts[0]]
+    segs = [body[a:b] for a, b in zip(starts, starts[1:] + [tail_ix])]
+    return tree, head, segs, body[tail_ix:]
+
+
+class LongestSegments(ChoiceSegments):
+    """Longest(e1..en), n >= 2: same scheme as Choice.  Ghost W = (W_ok, W_val, W_end): the winner among the earlier options
+    (largest end, first on ties).  J: backtrack = p0, has_result = W_ok, (W_ok => farthest_result = W_val and farthest_position = W_end),
+    error bookkeeping well-formed, not W_ok after at least one option => status is false."""
+
+    def build(self, kinds):
+        nodes = [mk(k, i + 1) for i, k in enumerate(kinds)]
+        node = X.Longest(*nodes)
+        return node, frag.emit(node, False)
+
+    def lroles(self, head, tree=None):
+        r = {}
+        nodes = list(head) + ([tree] if tree is not None else [])
+        for s in nodes:
+            for tg in ast.walk(s):
+                if isinstance(tg, ast.Name) and isinstance(tg.ctx, ast.Store):
+                    for key in ('has_result', 'farthest_error_result', 'farthest_error_position', 'farthest_result', 'farthest_position', 'backtrack'):
+                        if re.fullmatch(key + r'\d+', tg.id):
+                            r[key] = tg.id
+        return r
+
+    def run(self, rep, tier, unit='segments:Longest'):
+        proved = {}
+        for cur in KINDS:
+            for prev in ('AS', 'NP', 'PS'):
+                for nxt in ('NP', None):
+                    kinds = [prev, cur] + ([nxt] if nxt else [])
+                    ok, key, detail = self.lsegment(kinds, 1)
+                    if key is not None:
+                        proved.setdefault(key, []).append(ok)
+                    rep.add(unit, f'segment {cur} (after {prev}{", last" if nxt is None else ""}): re-establishes J with the winner updated', 'smt', ok, detail=detail)
+            for nxt in ('NP', 'PS', 'AS'):
+                ok, key, detail = self.lsegment([cur, nxt], 0)
+                if key is not None:
+                    proved.setdefault(('first',) + key, []).append(ok)
+                rep.add(unit, f'first segment {cur} (before {nxt}): establishes J from the state HEAD establishes', 'smt', ok, detail=detail)
+        for needs_err in (False, True):
+            ok, detail = self.ltail(['NP', 'NP'] if needs_err else ['AS', 'NP'])
+            rep.add(unit, f'tail ({"can fail" if needs_err else "cannot fail"}): J gives the outcome of the winner, or the failure post', 'smt', ok, detail=detail)
+        good = {k for k, v in proved.items() if all(v)}
+        combos = list(itertools.product(KINDS, repeat=5))[::(9 if tier == 'quick' else 1)]
+        combos += [tuple(KINDS[(i * j + i // 2) % 4] for i in range(9)) for j in range(1, 12)]
+        bad = []
+        for kinds in combos:
+            if kinds[0] == 'FAIL' and False:
+                continue
+            node, src = self.build(list(kinds))
+            tree, head, segs, tail = split_longest(src)
+            ne = 'farthest_error_result' in self.lroles(head, tree)
+            for i, sg in enumerate(segs):
+                key = (norm(sg), ne)
+                if (i == 0 and ('first',) + key not in good) or (i > 0 and key not in good):
+                    bad.append({'kinds': kinds, 'segment': i, 'text': norm(sg)})
+                    break
+        rep.add(unit, f'closure: every segment of {len(combos)} Longest expressions of arity 5 and 9 is one of the proved shapes', 'case_complete', not bad, detail={'unmatched': bad[:3]})
+
+    def jstate(self, cx, roles, needs_err, first):
+        p0, N = cx.p0, cx.N
+        W_ok, W_val, W_end = Const('W_ok', B), Const('W_val', Val), Const('W_end', I)
+        seen_cps = Const('seen_cps', B)
+        env = {'_pos': Const('pos_in', I), '_text': cx.text, '_status': Const('status_in', B), '_result': Const('result_in', Val),
+               roles['backtrack']: p0, roles['has_result']: W_ok, roles['farthest_result']: If(W_ok, W_val, Const('stale_result', Val)),
+               roles['farthest_position']: If(W_ok, W_end, Const('stale_position', I))}
+        pc = [N >= 0, 0 <= p0, p0 <= N, reach(p0), Implies(W_ok, And(0 <= W_end, W_end <= N)), 0 <= env['_pos'], env['_pos'] <= N]
+        if needs_err:
+            FEP, FER = Const('FEP', I), Const('FER', Val)
+            env[roles['farthest_error_position']] = FEP
+            env[roles['farthest_error_result']] = FER
+            pc += [0 <= FEP, FEP <= N, reach(FEP), is_err(FER), Implies(Not(seen_cps), FEP == p0)]
+        if not first:
+            pc += [Implies(Not(W_ok), Not(env['_status']))]
+        return env, pc, (W_ok, W_val, W_end, seen_cps)
+
+    def jcheck(self, ex, cx, roles, needs_err, e_, W2, seen2, status):
+        p0, N = cx.p0, cx.N
+        W_ok2, W_val2, W_end2 = W2
+        goal = [e_[roles['backtrack']] == p0, ex.truth(e_[roles['has_result']], None) == W_ok2,
+                Implies(W_ok2, And(ex.box(e_.get(roles['farthest_result'], Const('unbound_result', Val))) == W_val2,
+                                   e_.get(roles['farthest_position'], Const('unbound_position', I)) == W_end2, 0 <= W_end2, W_end2 <= N)),
+                Implies(Not(W_ok2), Not(status))]
+        if needs_err:
+            fep, fer = e_[roles['farthest_error_position']], e_[roles['farthest_error_result']]
+            goal += [0 <= fep, fep <= N, reach(fep), is_err(ex.box(fer)), Implies(Not(seen2), fep == p0)]
+        return And(*goal)
+
+    def lsegment(self, kinds, idx):
+        node, src = self.build(kinds)
+        try:
+            tree, head, segs, tail = split_longest(src)
+        except Exception as e:
+            return False, None, {'error': repr(e), 'src': src}
+        roles = self.lroles(head, tree)
+        needs_err = 'farthest_error_result' in roles
+        seg = segs[idx]
+        kids = [Child(i + 1, *NAME2FLAGS[k]) for i, k in enumerate(kinds) if k != 'FAIL']
+        cx = Cx(None, {}, node, kids, False)
+        cx.src, cx.tree = src, tree
+        stmts = (head + seg) if idx == 0 else seg
+        ex = Exec(ast.Module(body=stmts, type_ignores=[]))
+        cx.ex = ex
+        install_hooks(ex, cx)
+        p0, N = cx.p0, cx.N
+        if idx == 0:
+            st = St(env={'_pos': p0, '_text': cx.text, '_status': Const('status_in', B), '_result': Const('result_in', Val)}, pc=[N >= 0, 0 <= p0, p0 <= N, reach(p0)])
+            W_ok, W_val, W_end, seen_cps = BoolVal(False), Const('W_val', Val), Const('W_end', I), BoolVal(False)
+        else:
+            env, pc, (W_ok, W_val, W_end, seen_cps) = self.jstate(cx, roles, needs_err, first=False)
+            st = St(env=env, pc=pc)
+        c = cx.kids.get(idx + 1)
+        okc = c.ok(p0, RHO0) if c is not None else BoolVal(False)
+        try:
+            outs = ex.block(stmts, st)
+        except OutOfSubset as e:
+            return False, None, {'error': f'out of subset: {e}', 'src': src}
+        vcs = list(ex.vcs)
+        better = And(okc, Or(Not(W_ok), W_end < c.end(p0, RHO0))) if c is not None else BoolVal(False)
+        W2 = (Or(W_ok, okc), If(better, c.val(p0, RHO0), W_val) if c is not None else W_val, If(better, c.end(p0, RHO0), W_end) if c is not None else W_end)
+        seen2 = Or(seen_cps, BoolVal(kinds[idx] in ('PS', 'FAIL')))
+        for kind_, q in outs:
+            if kind_ != 'fall':
+                vcs.append(VC(f'segment leaves by {kind_}', q.pc, BoolVal(False), 'post'))
+                continue
+            status = ex.truth(q.env['_status'], q)
+            vcs.append(VC('segment re-establishes J with the winner updated (larger end wins, first on ties)', q.pc,
+                          self.jcheck(ex, cx, roles, needs_err, q.env, W2, seen2, status), 'post', path=list(q.trace)))
+        for vc in vcs:
+            v = discharge(vc, ex.axioms)
+            if v.status != 'unsat':
+                return False, (norm(seg), needs_err), {'vc': vc.name, 'verdict': v.status, 'kinds': kinds, 'src': src, 'model': str(v.model)[:500]}
+        return True, (norm(seg), needs_err), None
+
+    def ltail(self, kinds):
+        node, src = self.build(kinds)
+        tree, head, segs, tail = split_longest(src)
+        roles = self.lroles(head, tree)
+        needs_err = 'farthest_error_result' in roles
+        cx = Cx(None, {}, node, [], False)
+        ex = Exec(ast.Module(body=tail, type_ignores=[]))
+        install_hooks(ex, cx)
+        env, pc, (W_ok, W_val, W_end, seen_cps) = self.jstate(cx, roles, needs_err, first=False)
+        if not needs_err:
+            pc.append(W_ok)          # some option always succeeds
+        outs = ex.block(tail, St(env=env, pc=pc))
+        for kind_, q in outs:
+            e_ = q.env
+            status, result, pos = ex.truth(e_['_status'], q), ex.box(e_['_result']), e_['_pos']
+            succ = And(W_ok, status, result == W_val, pos == W_end)
+            fail = And(Not(W_ok), Not(status), is_err(result), reach(pos), 0 <= pos, pos <= cx.N, Implies(Not(seen_cps), pos == cx.p0)) if needs_err else BoolVal(False)
+            v = discharge(VC('tail', q.pc, Or(succ, fail), 'post'), ex.axioms)
+            if kind_ != 'fall' or v.status != 'unsat':
+                return False, {'verdict': v.status, 'src': src, 'model': str(v.model)[:400]}
+        return True, None
